@@ -15,6 +15,7 @@ import (
 	"github.com/libp2p/go-libp2p/core/peer"
 	"github.com/libp2p/go-libp2p/core/record"
 	recpb "github.com/libp2p/go-libp2p/core/record/pb"
+	"github.com/multiformats/go-multiaddr"
 	"github.com/multiformats/go-multihash"
 	"google.golang.org/protobuf/proto"
 
@@ -101,6 +102,19 @@ func (f *foreignDomainRecord) Domain() string { return f.domain }
 func (f *foreignDomainRecord) MarshalRecord() ([]byte, error) {
 	return json.Marshal(&f.IngestRequest)
 }
+
+// rawRecord is a record with freely chosen signing domain, payload type and
+// payload bytes.
+type rawRecord struct {
+	domain  string
+	codec   []byte
+	payload []byte
+}
+
+func (f *rawRecord) Domain() string                 { return f.domain }
+func (f *rawRecord) Codec() []byte                  { return f.codec }
+func (f *rawRecord) MarshalRecord() ([]byte, error) { return f.payload, nil }
+func (f *rawRecord) UnmarshalRecord([]byte) error   { return nil }
 
 func TestCheck(t *testing.T) {
 	r := vp.New("C18", "exploration",
@@ -336,6 +350,76 @@ func TestCheck(t *testing.T) {
 			expect(key, "ingest", m, false, "", "", "foreign-domain", fmt.Sprintf("it was sealed for domain %q", dom))
 		}
 	}
-	_ = bytes.Equal
+	// domain and payload type varied independently: a genuine request payload,
+	// sealed by the provider it names, for every combination of {right, other}
+	// domain x {right, other} payload type; only (right, right) may be accepted
+	for _, kt := range kts {
+		signer := fixture.Key(kt, 0)
+		ingestPayload, err := (&model.IngestRequest{Multihash: fixture.Mh("c18-type", multihash.SHA2_256, -1), ProviderID: signer.ID, ContextID: []byte("ctx"), Metadata: []byte("md"), Addrs: []string{"/ip4/1.2.3.4/tcp/9999"}, Seq: 1}).MarshalRecord()
+		if err != nil {
+			panic(err)
+		}
+		pr := peer.NewPeerRecord()
+		pr.PeerID = signer.ID
+		pr.Addrs = []multiaddr.Multiaddr{multiaddr.StringCast("/ip4/1.2.3.4/tcp/9999")}
+		registerPayload, err := pr.MarshalRecord()
+		if err != nil {
+			panic(err)
+		}
+		for _, rd := range []struct {
+			reader, domain string
+			codec, payload []byte
+		}{
+			{"ingest", model.IngestRequestEnvelopeDomain, model.IngestRequestEnvelopePayloadType, ingestPayload},
+			{"register", peer.PeerRecordEnvelopeDomain, peer.PeerRecordEnvelopePayloadType, registerPayload},
+		} {
+			domains := []string{rd.domain, rd.domain + "x", "libp2p-peer-record", "indexer-ingest-request-record", "x"}
+			codecs := [][]byte{rd.codec, append(append([]byte(nil), rd.codec...), 'x'), peer.PeerRecordEnvelopePayloadType, model.IngestRequestEnvelopePayloadType, {0x99, 0x99}, {}}
+			for di, dom := range domains {
+				for ci, codec := range codecs {
+					rightDomain, rightCodec := dom == rd.domain, bytes.Equal(codec, rd.codec)
+					key := fmt.Sprintf("domain-x-type|%s|%s|d%d|c%d", rd.reader, kt, di, ci)
+					if !r.Mine(key) {
+						continue
+					}
+					r.Eval(key, !(rightDomain && rightCodec))
+					env, err := record.Seal(&rawRecord{domain: dom, codec: codec, payload: rd.payload}, signer.Priv)
+					if err != nil {
+						r.Outcome("seal-refused")
+						continue
+					}
+					m, err := env.Marshal()
+					if err != nil {
+						continue
+					}
+					var rerr error
+					pn, pm := vp.Guard(func() {
+						if rd.reader == "ingest" {
+							_, rerr = model.ReadIngestRequest(m)
+						} else {
+							_, rerr = model.ReadRegisterRequest(m)
+						}
+					})
+					switch {
+					case pn:
+						r.Violation(rd.reader+":panic:domain-x-type", key, firstLine(pm), nil)
+					case rightDomain && rightCodec && rerr != nil:
+						r.Violation(rd.reader+":rejected:own-domain-and-type", key, rerr.Error(), nil)
+					case !(rightDomain && rightCodec) && rerr == nil:
+						what := "another payload type"
+						if !rightDomain {
+							what = "another domain"
+							if !rightCodec {
+								what = "another domain and payload type"
+							}
+						}
+						r.Violation(rd.reader+":accepted:"+strings.ReplaceAll(what, " ", "-"), key, fmt.Sprintf("%s request accepted although it was sealed for %s (domain %q, payload type %q)", rd.reader, what, dom, codec), nil)
+					default:
+						r.Outcome("domain-x-type-ok")
+					}
+				}
+			}
+		}
+	}
 	t.Logf("violations: %d", r.Violations())
 }
